@@ -304,7 +304,7 @@ def _(m, callee, args):
     return len(rstr(m, args[0]).cs)
 
 
-@model(r'^String::as_bytes$')
+@model(r'^String::as_bytes$|str::<impl str>::as_bytes$')
 def _(m, callee, args):
     return ValRef(rstr(m, args[0]))
 
@@ -403,23 +403,23 @@ def _(m, callee, args):
     return args[0].fields[0]
 
 
-@model(r'MutexGuard<.*> as DerefMut>::deref_mut$')
+@model(r'MutexGuard<.*> as (std::ops::)?DerefMut>::deref_mut$|MutexGuard<.*> as (std::ops::)?Deref>::deref$')
 def _(m, callee, args):
     return ValRef(deref_all(m, args[0])[1])
 
 
 @model(r'^HashMap::<.*>::get_mut::<')
 def _(m, callee, args):
-    assert m.env.get('lock_held'), 'registry touched without the lock'
     hm = deref_all(m, args[0])
+    assert hm is not m.env.get('registry') or m.env.get('lock_held'), 'registry touched without the lock'
     i = hm.find(m, args[1])
     return NONE() if i < 0 else some(ValRef(hm.items[i][1]))
 
 
 @model(r'^HashMap::<.*>::insert$')
 def _(m, callee, args):
-    assert m.env.get('lock_held'), 'registry touched without the lock'
     hm = deref_all(m, args[0])
+    assert hm is not m.env.get('registry') or m.env.get('lock_held'), 'registry touched without the lock'
     i = hm.find(m, args[1])
     if i >= 0:
         old = hm.items[i][1]
@@ -1551,7 +1551,7 @@ def _(m, callee, args):
     return ()
 
 
-@model(r'^Vec::<.*>::contains$|^core::slice::<impl \[.*\]>::contains$')
+@model(r'^Vec::<.*>::contains$|slice::<impl \[.*\]>::contains$')
 def _(m, callee, args):
     v = deref_all(m, args[0])
     items = v.items if isinstance(v, RVec) else v
@@ -1566,7 +1566,7 @@ def _(m, callee, args):
     return False
 
 
-@model(r'^core::slice::<impl \[.*\]>::sort$|^core::slice::<impl \[.*\]>::sort_unstable$')
+@model(r'slice::<impl \[.*\]>::sort$|slice::<impl \[.*\]>::sort_unstable$')
 def _(m, callee, args):
     r = args[0]
     v = deref_all(m, r)
@@ -1859,20 +1859,53 @@ def _(m, callee, args):
     return ('hentry', deref_all(m, args[0]), args[1], 'path' if callee.startswith('HashMap::<PathBuf') else 'plain')
 
 
+def default_of(ty):
+    """Default::default() of a type given by its MIR text"""
+    ty = ty.strip()
+    if re.fullmatch(r'(usize|u\d+|i\d+|isize)', ty):
+        return 0
+    if ty == 'bool':
+        return False
+    if ty in ('String', 'PathBuf', '&str'):
+        return RStr([])
+    if re.match(r'(std::collections::)?Hash(Set|Map)<', ty):
+        return HMap()
+    if re.match(r'(std::collections::)?BTree(Set|Map)<', ty):
+        return BTree()
+    if ty.startswith('Vec<'):
+        return RVec([])
+    if ty.startswith('Option<'):
+        return NONE()
+    raise Unsupported(f'Default::default() of {ty}')
+
+
+def _entry_value_type(callee):
+    from .mirparse import split_top
+    q = re.search(r'Entry::<(.*)>::(or_default|or_insert|or_insert_with)', callee)
+    parts = [x for x in split_top(q.group(1)) if not x.strip().startswith("'")] if q else []
+    return parts[1] if len(parts) > 1 else ''
+
+
 def _hentry_or(m, callee, args):
+    from .interp import FnRef
     e = args[0]
     hm, key = e[1], e[2]
-    i = _hfind_path(m, hm, key) if len(e) > 3 and e[3] == 'path' else hm.find(m, key)
+    find = (lambda: _hfind_path(m, hm, key)) if len(e) > 3 and e[3] == 'path' else (lambda: hm.find(m, key))
+    i = find()
     if i < 0:
         if 'or_default' in callee:
-            val = HMap() if 'HashSet' in callee else (BTree() if 'BTree' in callee else HMap())
+            val = default_of(_entry_value_type(callee))
         elif 'or_insert_with' in callee:
             val = m.call_closure(args[1], [])
         else:
             val = args[1]
         hm.items.append((deref_all(m, key), val))
         i = len(hm.items) - 1
-    return ValRef(hm.items[i][1])
+
+    def set_(val):
+        j = find()
+        hm.items[j] = (hm.items[j][0], val)
+    return FnRef(lambda: hm.items[find()][1], set_)
 
 
 _prepend(r'^std::collections::hash_map::Entry::<.*>::(or_default|or_insert|or_insert_with::<.*)$', _hentry_or)
@@ -2166,6 +2199,31 @@ def _(m, callee, args):
     return off == args[1]
 
 
+def elem_ref(m, vref, i):
+    """`&mut v[i]` for a vector reached through the reference `vref`"""
+    from .interp import FnRef
+
+    def get():
+        v = deref_all(m, vref)
+        return (v.items if isinstance(v, RVec) else v)[i]
+
+    def set_(val):
+        v = deref_all(m, vref)
+        items = list(v.items if isinstance(v, RVec) else v)
+        items[i] = val
+        r = vref
+        while isinstance(r, (Ref, ValRef)) and isinstance(m.read_place(r.frame, r.place), (Ref, ValRef)):
+            r = m.read_place(r.frame, r.place)
+        m.write_place(r.frame, r.place, RVec(items))
+    return FnRef(get, set_)
+
+
+def opt_ref(m, r):
+    """`&mut x` for the payload of the `Some(x)` stored behind the reference r"""
+    from .interp import FnRef
+    return FnRef(lambda: m.read_place(r.frame, r.place).fields[0], lambda val: m.write_place(r.frame, r.place, some(val)))
+
+
 def U8(m, c):
     from .unicode import utf8_len
     return utf8_len(m, c)
@@ -2233,11 +2291,10 @@ def _(m, callee, args):
     r = args[0]
     cur = m.read_place(r.frame, r.place)
     if 'get_or_insert' in callee and disc_is(m, cur, 1):
-        return ValRef(cur.fields[0])
+        return opt_ref(m, r)
     v = m.call_closure(args[1], []) if 'insert_with' in callee else args[1]
-    new = some(v)
-    m.write_place(r.frame, r.place, new)
-    return ValRef(v)
+    m.write_place(r.frame, r.place, some(v))
+    return opt_ref(m, r)
 
 
 @model(r'^Option::<.*>::ok_or$|^Option::<.*>::ok_or::<')
@@ -2357,12 +2414,12 @@ def _(m, callee, args):
             return r
 
 
-@model(r' as Iterator>::(cloned|copied)$')
+@model(r' as Iterator>::(cloned|copied)(::<.*>)?$')
 def _(m, callee, args):
     return PyIter('list', items=[deref_all(m, x) if isinstance(x, (Ref, ValRef)) else x for x in drain(m, args[0])], pos=0)
 
 
-@model(r' as Iterator>::flatten$')
+@model(r' as Iterator>::flatten(::<.*>)?$')
 def _(m, callee, args):
     out = []
     for x in drain(m, args[0]):
@@ -2451,7 +2508,8 @@ def _(m, callee, args):
 def _(m, callee, args):
     it = deref_all(m, args[0]) if not isinstance(args[0], PyIter) else args[0]
     if isinstance(it, PyIter) and it.kind in ('list', 'slice', 'components') and it.pos < len(it.items):
-        v = it.items.pop()
+        v = it.items[-1]
+        it.items = it.items[:-1]          # never mutate the list in place: a slice iterator shares it with the vector
         return some(ValRef(v) if it.kind == 'slice' else v)
     if isinstance(it, PyIter) and it.kind in ('list', 'slice', 'components'):
         return NONE()
@@ -2493,7 +2551,7 @@ def _(m, callee, args):
     return ()
 
 
-@model(r'^core::slice::<impl \[.*\]>::(sort_by|sort_unstable_by)::<')
+@model(r'slice::<impl \[.*\]>::(sort_by|sort_unstable_by)::<')
 def _(m, callee, args):
     v = deref_all(m, args[0])
     items = list(v.items if isinstance(v, RVec) else v)
@@ -2514,17 +2572,17 @@ def _(m, callee, args):
     return ()
 
 
-@model(r'^core::slice::<impl \[.*\]>::(last_mut|first_mut)$|^Vec::<.*>::(last_mut|first_mut)$')
+@model(r'slice::<impl \[.*\]>::(last_mut|first_mut)$|^Vec::<.*>::(last_mut|first_mut)$')
 def _(m, callee, args):
     v = deref_all(m, args[0])
     items = v.items if isinstance(v, RVec) else v
     if not items:
         return NONE()
     i = len(items) - 1 if 'last' in callee else 0
-    return some(ValRef(items[i]))
+    return some(elem_ref(m, args[0], i))
 
 
-@model(r'^core::slice::<impl \[.*\]>::(windows|chunks)$')
+@model(r'slice::<impl \[.*\]>::(windows|chunks)$')
 def _(m, callee, args):
     v = deref_all(m, args[0])
     items = list(v.items if isinstance(v, RVec) else v)
@@ -2629,3 +2687,244 @@ def _(m, callee, args):
         out.append(34)
         return ('fmtarg', RStr(out))
     raise Unsupported(f'Debug formatting of {v!r}')
+
+
+# ------------------------------------------------------------------ third breadth batch (driven by props/selftest.py)
+def _dec(n):
+    return [ord(c) for c in str(n)]
+
+
+@model(r'^<(usize|u8|u16|u32|u64|u128|isize|i8|i16|i32|i64|i128) as ToString>::to_string$')
+def _(m, callee, args):
+    v = deref_all(m, args[0])
+    if is_sym(v):
+        raise Unsupported('to_string of a symbolic integer')
+    return RStr(_dec(v))
+
+
+@model(r'^<&(&)?(str|String) as ToString>::to_string$|^<Cow<\'_, str> as ToString>::to_string$|^Cow::<\'_, str>::into_owned$|^<Cow<\'_, str> as Into<String>>::into$')
+def _(m, callee, args):
+    v = deref_all(m, args[0])
+    if isinstance(v, Enum) and v.name in ('Borrowed', 'Owned'):
+        v = deref_all(m, v.fields[0])
+    return RStr(list(v.cs))
+
+
+@model(r'^(std::ffi::)?OsStr::to_string_lossy$')
+def _(m, callee, args):
+    return Enum(0, [ValRef(rstr(m, args[0]))], 'Borrowed')
+
+
+@model(r'^<Vec<.*> as (std::ops::)?DerefMut>::deref_mut$|^<String as (std::ops::)?DerefMut>::deref_mut$|^Vec::<.*>::as_mut_slice$|^Vec::<.*>::as_slice$|^String::as_mut_str$')
+def _(m, callee, args):
+    return args[0]
+
+
+def _bt(m, a):
+    return deref_all(m, a)
+
+
+@model(r'^BTreeMap::<.*>::contains_key::<')
+def _(m, callee, args):
+    return _bt(m, args[0]).locate(m, args[1])[1]
+
+
+@model(r'^BTreeMap::<.*>::(get|get_mut)::<')
+def _(m, callee, args):
+    from .interp import FnRef
+    t = _bt(m, args[0])
+    i, found = t.locate(m, args[1])
+    if not found:
+        return NONE()
+    key = t.items[i][0]
+
+    def set_(val, t=t, key=key):
+        j, _ = t.locate(m, key)
+        t.items[j] = (t.items[j][0], val)
+    return some(FnRef(lambda t=t, key=key: t.items[t.locate(m, key)[0]][1], set_))
+
+
+@model(r'^BTree(Map|Set)::<.*>::remove::<')
+def _(m, callee, args):
+    t = _bt(m, args[0])
+    i, found = t.locate(m, args[1])
+    if not found:
+        return NONE() if callee.startswith('BTreeMap') else False
+    k, v = t.items.pop(i)
+    return some(v) if callee.startswith('BTreeMap') else True
+
+
+def _btree_entry_or(m, callee, args):
+    from .interp import FnRef
+    _, tree, key = args[0][:3]
+    i, found = tree.locate(m, key)
+    if not found:
+        if 'or_default' in callee:
+            val = default_of(_entry_value_type(callee))
+        elif 'or_insert_with' in callee:
+            val = m.call_closure(args[1], [])
+        else:
+            val = args[1]
+        tree.items.insert(i, (key, val))
+
+    def set_(val):
+        j, _ = tree.locate(m, key)
+        tree.items[j] = (tree.items[j][0], val)
+    return FnRef(lambda: tree.items[tree.locate(m, key)[0]][1], set_)
+
+
+_prepend(r'^std::collections::btree_map::Entry::<.*>::(or_default|or_insert|or_insert_with::<.*)$', _btree_entry_or)
+
+
+@model(r'^BTreeSet::<.*>::(into_iter)$|^<&?BTreeSet<.*> as IntoIterator>::into_iter$|^<&?BTreeMap<.*> as IntoIterator>::into_iter$')
+def _(m, callee, args):
+    t = _bt(m, args[0])
+    if 'BTreeSet' in callee:
+        return PyIter('list', items=[k for k, _ in t.items], pos=0)
+    return PyIter('list', items=[(k, v) for k, v in t.items], pos=0)
+
+
+@model(r'^BTree(Map|Set)::<.*>::(first_key_value|last_key_value|first|last)$')
+def _(m, callee, args):
+    t = _bt(m, args[0])
+    if not t.items:
+        return NONE()
+    k, v = t.items[0 if 'first' in callee else -1]
+    return some((k, ValRef(v))) if callee.startswith('BTreeMap') else some(k)
+
+
+@model(r'^<HashMap<.*> as (std::ops::)?Index<.*>>::index$|^<BTreeMap<.*> as (std::ops::)?Index<.*>>::index$')
+def _(m, callee, args):
+    h = deref_all(m, args[0])
+    if isinstance(h, BTree):
+        i, found = h.locate(m, args[1])
+        if not found:
+            raise Panic('key not found in map')
+        return ValRef(h.items[i][1])
+    i = h.find(m, args[1])
+    if i < 0:
+        raise Panic('key not found in map')
+    return ValRef(h.items[i][1])
+
+
+@model(r'slice::<impl \[.*\]>::(concat)::<')
+def _(m, callee, args):
+    v = deref_all(m, args[0])
+    out = []
+    for x in (v.items if isinstance(v, RVec) else v):
+        out += rstr(m, x).cs
+    return RStr(out)
+
+
+@model(r'slice::<impl \[.*\]>::reverse$')
+def _(m, callee, args):
+    v = deref_all(m, args[0])
+    if isinstance(v, RVec):
+        v.items.reverse()
+    else:
+        v.reverse()
+    return ()
+
+
+@model(r'^String::insert$')
+def _(m, callee, args):
+    from .models import cidx
+    r = args[0]
+    cs = rstr(m, r).cs
+    i = cidx(m, cs, args[1], 'insertion index')
+    m.write_place(r.frame, r.place, RStr(cs[:i] + [args[2]] + cs[i:]))
+    return ()
+
+
+@model(r'^String::remove$')
+def _(m, callee, args):
+    from .models import cidx
+    r = args[0]
+    cs = rstr(m, r).cs
+    i = cidx(m, cs, args[1], 'removal index')
+    if i >= len(cs):
+        raise Panic('cannot remove a char from the end of a string')
+    m.write_place(r.frame, r.place, RStr(cs[:i] + cs[i + 1:]))
+    return cs[i]
+
+
+@model(r'str::<impl str>::bytes$')
+def _(m, callee, args):
+    cs = rstr(m, args[0]).cs
+    if any((not is_sym(c)) and c > 127 for c in cs):
+        raise Unsupported('bytes() of a non-ASCII string')
+    for c in cs:
+        if is_sym(c):
+            m.ctx.assume(z3.ULT(c, 128))
+    return PyIter('list', items=list(cs), pos=0)
+
+
+@model(r'str::<impl str>::parse::<(usize|u8|u16|u32|u64|i32|i64|isize)>$|^<(usize|u8|u16|u32|u64|i32|i64|isize) as FromStr>::from_str$')
+def _(m, callee, args):
+    cs = rstr(m, args[0]).cs
+    if any(is_sym(c) for c in cs):
+        raise Unsupported('parse::<int> of a symbolic string')
+    t = ''.join(map(chr, cs))
+    if re.fullmatch(r'\+?\d+', t) or (re.fullmatch(r'-\d+', t) and re.search(r'<i', callee)):
+        return OK(int(t))
+    return ERR(('parse_int_error',))
+
+
+@model(r'char::methods::<impl char>::(from_u32|from_digit|to_digit|is_control|is_ascii_control|is_digit)$|^char::convert::from_u32$|^std::char::from_u32$|^core::char::from_u32$')
+def _(m, callee, args):
+    from .models import charval
+    op = callee.rsplit('::', 1)[1]
+    a = charval(m, args[0]) if op not in ('from_u32', 'from_digit') else args[0]
+    if is_sym(a):
+        raise Unsupported(f'char::{op} of a symbolic value')
+    if op == 'from_u32':
+        return some(a) if (a < 0xD800 or 0xE000 <= a < 0x110000) else NONE()
+    if op == 'from_digit':
+        return some(ord('0123456789abcdefghijklmnopqrstuvwxyz'[a])) if a < args[1] else NONE()
+    if op in ('to_digit', 'is_digit'):
+        d = '0123456789abcdefghijklmnopqrstuvwxyz'.find(chr(a).lower()) if a < 128 else -1
+        ok = 0 <= d < args[1]
+        return (some(d) if ok else NONE()) if op == 'to_digit' else ok
+    return a < 32 or a == 127 or (op == 'is_control' and 0x80 <= a < 0xA0)
+
+
+@model(r'^<bool as ToString>::to_string$')
+def _(m, callee, args):
+    v = deref_all(m, args[0])
+    if is_sym(v):
+        raise Unsupported('to_string of a symbolic bool')
+    return RStr([ord(c) for c in ('true' if v else 'false')])
+
+
+@model(r'^<&(&)?(str|String) as PartialEq(<.*>)?>::(eq|ne)$')
+def _(m, callee, args):
+    r = str_eq(m, rstr(m, args[0]), rstr(m, args[1]))
+    return r if callee.endswith('::eq') else not r
+
+
+@model(r'str::<impl str>::rsplit::<(char|&str)>$')
+def _(m, callee, args):
+    cs = rstr(m, args[0]).cs
+    kind, p = _pat_pred(m, args[1])
+    if kind == 'str':
+        parts = split_list(m, cs, p)
+    else:
+        parts, cur = [], []
+        for c in cs:
+            if any(cmp_char_eq(m, c, q) for q in p):
+                parts.append(cur)
+                cur = []
+            else:
+                cur.append(c)
+        parts.append(cur)
+    return PyIter('list', items=[S(x) for x in reversed(parts)], pos=0)
+
+
+@model(r"core::fmt::rt::Argument::<'_>::new_(lower_hex|upper_hex|binary|octal)::<")
+def _(m, callee, args):
+    v = deref_all(m, args[0])
+    if is_sym(v) or not isinstance(v, int):
+        raise Unsupported('radix formatting of a symbolic value')
+    kind = re.search(r'new_(\w+)::<', callee).group(1)
+    text = {'lower_hex': '%x', 'upper_hex': '%X', 'octal': '%o'}.get(kind, '') % v if kind != 'binary' else bin(v)[2:]
+    return ('fmtarg', RStr([ord(c) for c in text]), 'num', {'lower_hex': '0x', 'upper_hex': '0x', 'octal': '0o', 'binary': '0b'}[kind])
